@@ -5,6 +5,7 @@
 use vstd::prelude::*;
 use vstd::std_specs::cmp::*;
 use vstd::std_specs::hash::*;
+use std::collections::HashMap;
 verus! {
 
 //@ include prelude/world.rs
@@ -45,6 +46,22 @@ verus! {
 //@ extract blob.rs enum GetCurrentFileInfoError
 //@ end
 //@ extract blob.rs enum ResolutionError
+//@ end
+//@ extract history.rs struct DownloaderRuleHistory
+//@ end
+//@ extract history.rs struct RuleHistory
+//@ end
+//@ extract history.rs enum RuleHistoryInsertError
+//@ end
+//@ extract work.rs enum WorkOption
+//@ end
+//@ extract work.rs struct WorkResult
+//@ end
+//@ extract work.rs enum WorkError
+//@ end
+//@ extract work.rs struct RuleExt
+//@ end
+//@ extract work.rs struct HandleNodeInfo
 //@ end
 
 //@ include prelude/system_seq.rs
@@ -512,5 +529,203 @@ impl Blob {
 }
 spec fn uniq_at(ts: Seq<Seq<u8>>, k: int) -> bool { forall|j: int| 0 <= j < ts.len() && j != k ==> #[trigger] ts[j] != ts[k] }
 spec fn cpath_under_fact(dir: Seq<char>, h: Seq<u8>) -> bool { under(dir, cpath(dir, h)) }
+
+impl Blob {
+//@ extract blob.rs impl /^Blob$/ fn resolve_with_no_current_file_states
+//@ props C01 C05 C07 C08 C09
+//@ ret res
+//@ param Tracked(w): Tracked<&mut World>
+//@ addarg 2 /get_file_ticket|cache\.back_up_file_with_ticket/ Tracked(w)
+//@ retype 1 /let mut resolutions = vec!\[\];/ => let mut resolutions : Vec<FileResolution> = Vec::new();
+//@ spec
+        requires old(cache).wf(*old(w)), inv(*old(w)), self.wf(*old(w)), self.all_rem_ok(),
+        ensures final(cache).wf(*final(w)), final(cache).path@ == old(cache).path@,
+            inv(*final(w)),                                                                            //# O-D-rnc-inv [C07]
+            kept(*old(w), *final(w)),                                                                  //# O-D-rnc-kept [C08]
+            frame_except(*old(w), *final(w), self.paths()),                                            //# O-D-rnc-frame [C09]
+            final(w).execs == old(w).execs,
+            res matches Ok(v) ==> v@.len() == self.file_infos@.len()                                   //# O-D-rnc-all-displaced [C01,C08]
+                && (forall|k: int| 0 <= k < self.file_infos@.len() ==> (#[trigger] v@[k]) is NeedsRebuild)
+                && self.all_absent(*final(w)),
+//@ loop 1 binder it
+//@ loop 1 invariant
+            invariant cache.wf(*w), cache.path@ == old(cache).path@, inv(*w), self.wf(*w), self.all_rem_ok(),
+                same_consts(*old(w), *w),
+                kept(*old(w), *w), frame_except(*old(w), *w, self.paths()), w.execs == old(w).execs,
+                resolutions@.len() == it.index@,
+                forall|k: int| 0 <= k < it.index@ ==> (#[trigger] resolutions@[k]) is NeedsRebuild,
+                forall|k: int| 0 <= k < it.index@ ==> !w.files.contains_key(#[trigger] self.file_infos@[k].path@),
+//@ hint before 1/1 /match get_file_ticket\(/
+            let ghost w_i = *w;
+            proof { assert(self.paths()[it.index@] == self.file_infos@[it.index@].path@);
+                    assert forall|k: int| 0 <= k < it.index@ implies (#[trigger] self.file_infos@[k]).path@ != self.file_infos@[it.index@].path@ by {} }
+//@ hint before 1/1 /match cache\.back_up_file_with_ticket\(/
+                    proof { cpath_under(w.cache_dir, current_target_ticket.bytes()); }
+//@ end
+}
+
+// ---------- history.rs (in-memory part) ----------
+spec fn hist_wf(h: Map<Ticket, FileStateVec>, n: int) -> bool { forall|k: Ticket| #![trigger h[k]] h.contains_key(k) ==> h[k].infos@.len() == n }
+
+// ASSUMED: the remote history (network; outside every claim -- with no URL list it answers None)
+impl DownloaderRuleHistory {
+    #[verifier::external_body]
+    fn get_file_state_vec(&self, source_ticket: &Ticket) -> (r: Option<FileStateVec>)
+        ensures self.base_urls@.len() == 0 ==> r is None
+    { unimplemented!() }
+}
+spec fn no_urls_h(d: Option<DownloaderRuleHistory>) -> bool { d matches Some(dh) ==> dh.base_urls@.len() == 0 }
+
+impl RuleHistory {
+    spec fn map(&self) -> Map<Ticket, FileStateVec> { self.source_to_targets@ }
+
+//@ extract history.rs impl /^RuleHistory$/ fn new
+//@ props C01 C11 C05
+//@ ret res
+//@ spec
+        ensures res.map() == Map::<Ticket, FileStateVec>::empty(),
+//@ end
+
+//@ extract history.rs impl /^RuleHistory$/ fn insert
+//@ props C17 C01 C05
+//@ ret res
+//@ spec
+        ensures
+            !old(self).map().contains_key(source_ticket) ==> res is Ok && final(self).map() == old(self).map().insert(source_ticket, file_state_vec),   //# O-D-insert-new [C01,C17]
+            old(self).map().contains_key(source_ticket) ==> {
+                &&& final(self).map() == old(self).map()                                                                              //# O-D-insert-keeps [C17]
+                &&& (res is Ok <==> old(self).map()[source_ticket].tickets() =~= file_state_vec.tickets())                         //# O-D-insert-ok [C17]
+                &&& ((res matches Err(RuleHistoryInsertError::TargetSizesDifferWeird)) <==> old(self).map()[source_ticket].infos@.len() != file_state_vec.infos@.len())
+                &&& (res matches Err(RuleHistoryInsertError::Contradiction(v)) ==>                                                  //# O-D-insert-contradiction [C17]
+                        v@ =~= diff_indices(old(self).map()[source_ticket].tickets(), file_state_vec.tickets(), file_state_vec.infos@.len() as int))
+            },
+//@ hint start
+        broadcast use ticket_key_model;
+//@ end
+
+//@ extract history.rs impl /^RuleHistory$/ fn get_file_state_vec
+//@ props C01 C02 C05
+//@ ret res
+//@ spec
+        ensures self.map().contains_key(*source_ticket) ==> res == Some(&self.map()[*source_ticket]),    //# O-D-history-lookup [C01,C02]
+            !self.map().contains_key(*source_ticket) ==> res is None,
+//@ hint start
+        broadcast use ticket_key_model;
+//@ end
+}
+
+// ---------- work.rs ----------
+// ASSUMED: system/mod.rs::to_command_script (string joining; the script is opaque to every contract)
+uninterp spec fn to_script(lines: Seq<Seq<char>>) -> Seq<Seq<char>>;
+spec fn strs(v: Seq<String>) -> Seq<Seq<char>> { v.map_values(|l: String| l@) }
+#[verifier::external_body]
+fn to_command_script(all_lines : Vec<String>) -> (r: CommandScript) ensures script_view(r) == to_script(strs(all_lines@)) { unimplemented!() }
+
+// ASSUMED (R4): Blob::get_paths / get_file_infos are adapter / derived-Clone code; element-wise, order preserving
+impl Blob {
+    #[verifier::external_body]
+    fn get_paths(self : &Self) -> (r: Vec<String>) ensures strs(r@) =~= self.paths() { unimplemented!() }
+    #[verifier::external_body]
+    fn get_file_infos(self : &Self) -> (r: Vec<FileInfo>) ensures r@ == self.file_infos@ { unimplemented!() }
+}
+impl Clone for FileStateVec { #[verifier::external_body] fn clone(&self) -> (r: FileStateVec) ensures r == *self { unimplemented!() } }
+
+//@ extract work.rs fn needs_rebuild
+//@ props C02 C20 C05
+//@ ret res
+//@ spec
+    ensures res <==> exists|i: int| 0 <= i < resolutions@.len() && (#[trigger] resolutions@[i]) is NeedsRebuild,    //# O-D-needs-rebuild [C02,C20]
+//@ loop 1 binder it
+//@ loop 1 invariant
+        invariant forall|i: int| 0 <= i < it.index@ ==> !((#[trigger] resolutions@[i]) is NeedsRebuild),
+//@ end
+
+spec fn cmd_ok(r: Result<CommandLineOutput, SystemError>) -> bool { r matches Ok(o) && o.code == Some(0i32) }
+
+//@ extract work.rs fn to_command_line_input
+//@ props C04 C05
+//@ ret res
+//@ retype 1 /let mut result = Err\(WorkError::NoCommandExecuted\);/ => let mut result : Result<CommandLineOutput, WorkError> = Err(WorkError::NoCommandExecuted);
+//@ spec
+    ensures
+        res is Ok <==> (command_result@.len() > 0 && forall|i: int| 0 <= i < command_result@.len() ==> cmd_ok(#[trigger] command_result@[i])),   //# O-D-fail-detected [C04]
+        res matches Ok(o) ==> o.code == Some(0i32),
+        res matches Err(e) ==> e is NoCommandExecuted || e is CommandExecutedButErrored || e is CommandFailedToExecute,
+//@ loop 1 binder it
+//@ loop 1 invariant
+        invariant forall|i: int| 0 <= i < it.index@ ==> cmd_ok(#[trigger] command_result@[i]),
+            (result is Ok) == (it.index@ > 0),
+            result matches Ok(o) ==> o.code == Some(0i32),
+            result matches Err(e) ==> e is NoCommandExecuted,
+//@ end
+
+// the command ran on world `mid` and produced `fin`
+spec fn ran(mid: World, fin: World, script: Seq<Seq<char>>) -> bool {
+    &&& fin.execs == mid.execs.push(script)
+    &&& fin.files == cmd_files(script, mid)
+    &&& fin.dirs == cmd_dirs(script, mid)
+    &&& cmd_respects(mid, fin)
+}
+// the hashes in v are the true hashes of the blob's files in world w
+spec fn true_hashes(w: World, b: Blob, v: FileStateVec) -> bool {
+    &&& v.infos@.len() == b.file_infos@.len()
+    &&& forall|i: int| 0 <= i < b.file_infos@.len() ==> file_tk(w, b.file_infos@[i].path@, (#[trigger] v.infos@[i]).ticket)
+}
+spec fn path_strs(paths: Seq<Seq<char>>, idx: Seq<usize>) -> Seq<Seq<char>> { Seq::new(idx.len(), |k: int| paths[idx[k] as int]) }
+
+//@ extract work.rs fn rebuild_node
+//@ props C01 C02 C04 C05 C07 C17 C18 C20
+//@ ret res
+//@ param Tracked(w): Tracked<&mut World>
+//@ addarg 2 /system\.execute_command|blob\.update_to_match_system_file_state/ Tracked(w)
+//@ retype 1 /let mut contradicting_target_paths = Vec::new\(\);/ => let mut contradicting_target_paths : Vec<String> = Vec::new();
+//@ spec
+    requires inv(*old(w)), blob.wf(*old(w)), blob.all_rem_ok(),
+        hist_wf(rule_history.map(), blob.file_infos@.len() as int),
+        // (environment) the command leaves no directory at a target path
+        forall|i: int| 0 <= i < blob.file_infos@.len() ==> !cmd_dirs(to_script(strs(command@)), *old(w)).contains(#[trigger] blob.file_infos@[i].path@),
+    ensures
+        ran(*old(w), *final(w), to_script(strs(command@))),                                             //# O-D-rebuild-one-exec [C02,C20]
+        inv(*final(w)),                                                                                 //# O-D-rebuild-inv [C07]
+        res matches Ok(r) ==> r.work_option matches WorkOption::CommandExecuted(o) && o.code == Some(0i32),            //# O-D-rebuild-option [C20,C04]
+        res matches Ok(r) ==> r.blob.paths() =~= blob.paths() && r.blob.all_rem_ok(),                                  //# O-D-rebuild-blob-valid [C18,C07]
+        res matches Ok(r) ==> true_hashes(*final(w), blob, r.file_state_vec),                                          //# O-D-rebuild-true-hash [C01,C03]
+        res matches Ok(r) ==> r.rule_history matches Some(h) && hist_wf(h.map(), blob.file_infos@.len() as int)        //# O-D-rebuild-history [C01,C17]
+                && h.map().contains_key(sources_ticket) && h.map()[sources_ticket].tickets() =~= r.file_state_vec.tickets()
+                && (forall|k: Ticket| #![trigger h.map()[k]] #![trigger h.map().contains_key(k)] rule_history.map().contains_key(k) ==> h.map().contains_key(k) && h.map()[k] == rule_history.map()[k])
+                && (forall|k: Ticket| #![trigger h.map().contains_key(k)] h.map().contains_key(k) ==> k == sources_ticket || rule_history.map().contains_key(k)),
+        // a contradiction names exactly the targets whose new hash differs from the recorded one; the record is kept (no history is returned)
+        res matches Err(WorkError::Contradiction(ps)) ==> rule_history.map().contains_key(sources_ticket)    //# O-D-contradiction-paths [C17]
+            && exists|v: FileStateVec| true_hashes(*final(w), blob, v) &&
+                strs(ps@) =~= path_strs(blob.paths(), diff_indices(rule_history.map()[sources_ticket].tickets(), #[trigger] v.tickets(), blob.file_infos@.len() as int)),
+        res matches Err(WorkError::TargetFileNotGenerated(p)) ==>                                       //# O-D-not-generated-names [C04]
+            exists|i: int| 0 <= i < blob.file_infos@.len() && #[trigger] blob.file_infos@[i].path@ == p@,
+//@ hint start
+    let ghost blob0 = blob;
+//@ hint after 1/1 /let command_result = [^;]*;/
+    proof { assert(mt(*w)); assert(blob.wf(*w)); }
+//@ hint before 1/1 /match rule_history\.insert\(/
+    let ghost h0 = rule_history.map();
+    let ghost fsv = file_state_vec;
+    proof {
+        assert forall|i: int| 0 <= i < blob0.file_infos@.len() implies (#[trigger] blob.file_infos@[i]).path@ == blob0.file_infos@[i].path@ by {
+            assert(blob.paths()[i] == blob0.paths()[i]);
+        }
+        assert(true_hashes(*w, blob0, fsv));
+    }
+//@ hint before 1/1 /return Err\(WorkError::Contradiction\(contradicting_target_paths\)\);/
+                    proof {
+                        assert(strs(contradicting_target_paths@) =~= path_strs(blob0.paths(), diff_indices(h0[sources_ticket].tickets(), fsv.tickets(), blob0.file_infos@.len() as int)));
+                    }
+//@ hint before 1/1 /let mut contradicting_target_paths/
+                    proof { diff_indices_props(h0[sources_ticket].tickets(), fsv.tickets(), fsv.infos@.len() as int); }
+                    let ghost di = diff_indices(h0[sources_ticket].tickets(), fsv.tickets(), fsv.infos@.len() as int);
+//@ loop 1 binder it
+//@ loop 1 invariant
+                        invariant strs(paths@) =~= blob.paths(), contradicting_indices@ =~= di,
+                            forall|k: int| 0 <= k < di.len() ==> 0 <= (#[trigger] di[k]) < paths@.len(),
+                            contradicting_target_paths@.len() == it.index@,
+                            forall|k: int| 0 <= k < it.index@ ==> (#[trigger] contradicting_target_paths@[k])@ == blob.paths()[di[k] as int],
+//@ end
 } // verus!
 fn main() {}
